@@ -10,11 +10,16 @@ use proptest::test_runner::TestRunner;
 
 pub struct Gen<'a> {
     u: Unstructured<'a>,
+    /// texts produced so far in this case (bounded), so that later texts can be *related* to
+    /// earlier ones: equal up to a late difference, colliding under simple hashes, and so on
+    recent: Vec<String>,
+    /// partner of the last related pair, handed out by one of the next `text` calls
+    pending: Option<String>,
 }
 
 impl<'a> Gen<'a> {
     pub fn new(tape: &'a [u8]) -> Self {
-        Gen { u: Unstructured::new(tape) }
+        Gen { u: Unstructured::new(tape), recent: Vec::new(), pending: None }
     }
     pub fn remaining(&self) -> usize {
         self.u.len()
@@ -101,16 +106,148 @@ impl<'a> Gen<'a> {
         }
         b
     }
-    /// A text: mostly short ASCII; sometimes multi-byte characters.
+    /// A text: mostly short ASCII; sometimes multi-byte characters, registered names, or a text
+    /// related to one produced earlier in the same case.
     pub fn text(&mut self) -> String {
+        let t = self.text_inner();
+        if self.recent.len() < 8 {
+            self.recent.push(t.clone());
+        } else {
+            let at = self.below(8);
+            self.recent[at] = t.clone();
+        }
+        t
+    }
+
+    fn text_inner(&mut self) -> String {
+        if self.pending.is_some() && self.ratio(1, 2) {
+            return self.pending.take().unwrap();
+        }
+        if self.ratio(1, 10) {
+            // related to an earlier text of the case (or, for the first text, one half of a pair
+            // whose other half is left pending)
+            let src = if self.recent.is_empty() {
+                self.text_fresh()
+            } else {
+                let at = self.below(self.recent.len());
+                self.recent[at].clone()
+            };
+            return self.text_related(&src);
+        }
+        self.text_fresh()
+    }
+
+    /// The pending partner of the last pair-producing relation, if any.
+    pub fn take_pending(&mut self) -> Option<String> {
+        self.pending.take()
+    }
+
+    /// Two different, related texts.
+    pub fn text_pair(&mut self) -> (String, String) {
+        let a = self.text_fresh();
+        let b = self.text_related(&a);
+        match self.pending.take() {
+            Some(p) => (b, p),
+            None => (a, b),
+        }
+    }
+
+    /// A text different from `src` and related to it; for the pair-producing relations the
+    /// partner is left in `pending`.
+    pub fn text_related(&mut self, src: &str) -> String {
+        let bump = |s: &str, with: &str| -> String {
+            // same text with the last character replaced by a different one
+            let mut t: String = s.to_string();
+            let last = t.pop();
+            let rep = match last {
+                Some(c) if c.to_string() == with => "~".to_string(),
+                _ => with.to_string(),
+            };
+            t.push_str(&rep);
+            t
+        };
+        match self.below(7) {
+            // late difference
+            0 => bump(src, *self.pick(&["1", "2", "b", "Z", "é"])),
+            // long common prefix: pad to a length around the one-byte / two-byte length classes and
+            // beyond any short comparison window, then differ in the tail; partner pending
+            1 => {
+                let target = *self.pick(&[20usize, 22, 23, 24, 25, 30, 40, 64, 255, 256, 300]);
+                let mut p = src.to_string();
+                const FILL: &str = "https://example.com/keys/params/0123456789/abcdefghijklmnopqrstuvwxyz/";
+                while p.len() < target {
+                    let need = target - p.len();
+                    p.push_str(&FILL[..need.min(FILL.len())]);
+                }
+                let (a, b) = if self.bool() { ("v2", "v1") } else { ("a", "b") };
+                self.pending = Some(format!("{}{}", p, b));
+                format!("{}{}", p, a)
+            }
+            // collision partner under h = h*m + byte for m in {31, 33, 37}: (x, y) -> (x+1, y-m)
+            2 => {
+                let m = *self.pick(&[31u8, 33, 37]);
+                let b = src.as_bytes();
+                for i in 0..b.len().saturating_sub(1) {
+                    if b[i] >= 0x20 && b[i] < 0x7e && b[i + 1] >= 0x20 + m && b[i + 1] < 0x7f {
+                        let mut v = b.to_vec();
+                        v[i] += 1;
+                        v[i + 1] -= m;
+                        if let Ok(t) = String::from_utf8(v) {
+                            return t;
+                        }
+                    }
+                }
+                // no such position: make a colliding pair behind the text
+                let (x, y) = match m {
+                    31 => ("Aa", "BB"),
+                    33 => ("Ab", "BA"),
+                    _ => ("Ak", "BF"),
+                };
+                self.pending = Some(format!("{}{}", src, y));
+                format!("{}{}", src, x)
+            }
+            // equal byte length, opposite order under UTF-8 bytes and UTF-16 code units
+            3 => {
+                self.pending = Some(format!("{}\u{1F600}", src));
+                format!("{}\u{FF5E}a", src)
+            }
+            // case of one letter
+            4 => {
+                let mut cs: Vec<char> = src.chars().collect();
+                let at = self.below(cs.len().max(1));
+                match cs.get(at).copied() {
+                    Some(c) if c.is_ascii_lowercase() => cs[at] = c.to_ascii_uppercase(),
+                    Some(c) if c.is_ascii_uppercase() => cs[at] = c.to_ascii_lowercase(),
+                    _ => cs.push('A'),
+                }
+                cs.into_iter().collect()
+            }
+            // composed / decomposed forms of the same rendered text
+            5 => {
+                self.pending = Some(format!("{}e\u{301}", src));
+                format!("{}\u{e9}", src)
+            }
+            // white space or a NUL around it
+            _ => format!("{}{}", src, *self.pick(&[" ", "\0", "\u{feff}", "\t"])),
+        }
+    }
+
+    fn text_fresh(&mut self) -> String {
         const ALPH: &[&str] = &[
             "a", "b", "c", "x", "y", "z", "/", " ", "-", "0", "1", "A", "é", "ß", "€", "中", "😀",
             "\u{a0}", "\t", "\n", "_", ";", "=", "\"", "+", ".", ",", ":", "*", "%",
+            // code-point class boundaries of UTF-8 and UTF-16
+            "\u{7f}", "\u{80}", "\u{7ff}", "\u{800}", "\u{d7ff}", "\u{e000}", "\u{ff5e}", "\u{fffd}", "\u{ffff}", "\u{10000}", "\u{10ffff}",
         ];
         // texts that spell registered names or numbers (a text label is never the registered one)
         const NAMES: &[&str] = &[
             "iss", "sub", "aud", "exp", "nbf", "iat", "cti", "alg", "crit", "kid", "iv", "kty", "key_ops", "crv", "x", "y", "d",
             "k", "1", "-1", "0", "4", "ES256", "EdDSA", "sign", "verify",
+            // IANA COSE registry names: curves, key types, algorithms, operations, header parameters
+            "P-256", "P-384", "P-521", "X25519", "X448", "Ed25519", "Ed448", "secp256k1", "OKP", "EC2", "RSA", "Symmetric",
+            "A128KW", "A192KW", "A256KW", "A128GCM", "HS256", "HMAC 256/256", "direct", "ECDH-ES + A128KW", "encrypt", "decrypt",
+            "wrap key", "unwrap key", "derive key", "derive bits", "MAC create", "MAC verify", "content type", "counter signature",
+            "Partial IV", "IV", "application/cwt", "application/cose-key", "application/cose-key-set",
         ];
         if self.ratio(1, 16) {
             return (*self.pick(NAMES)).to_string();
